@@ -124,7 +124,7 @@ def build_world(sc):
             mod = env.ctl if env.ctl is not None else env.entry
         else:
             mod = env.chassis.slots[where["slot"]]
-        mod.generic[(spec["cls"], spec["inst"])] = GenericObject()
+        mod.generic[(spec["cls"], spec["inst"])] = GenericObject()        # (None, None) = wildcard
     # extra devices on the UDP networks
     for dev in w.get("devices", []):
         m = Module(env.world, dev["identity"])
@@ -136,6 +136,8 @@ def build_world(sc):
 
 
 def resolve_where(env, where):
+    if where == "wild":
+        return env.entry
     if where == "entry":
         return env.entry
     if where == "target":
@@ -180,7 +182,8 @@ def run(sc):
                 continue
             if k == "generic":
                 mod = resolve_where(env, op["where"])
-                g = mod.generic[(num_of(op["cls"]), num_of(op["inst"]))]
+                g = mod.generic.get((num_of(op["cls"]), num_of(op["inst"]))) or mod.generic.get((num_of(op["cls"]), None)) \
+                    or mod.generic[(None, None)]
                 rep = op["reply"]
                 g.status, g.ext, g.reply_data = rep["status"], tuple(rep.get("ext", ())), bytes.fromhex(rep["data"])
                 route = op["route"]
@@ -701,7 +704,40 @@ def gen(seed, tier, prop="C14"):
 
 
 def directed(tier, prop="C14"):
-    return []
+    """C09: sweeps of class / instance / attribute values through generic messages against a wildcard object:
+    every value around the 8/16/32-bit format boundaries, and (thorough) every instance id 0..0x10100"""
+    if prop != "C09":
+        return []
+    vals_i = sorted(set(range(0, 0x120)) | set(range(0xFFE0, 0x10020)) | set(range(0, 0x10100, 97 if tier == "quick" else 1))
+                    | {0x7FFFFFFF, 0x80000000, 0xFFFFFFFE, 0xFFFFFFFF, 0x12345678})
+    vals_16 = sorted(set(range(0, 0x120)) | set(range(0xFFE0, 0x10000)) | set(range(0, 0x10000, 251 if tier == "quick" else 7)))
+    out = []
+
+    def scen(ops, seed):
+        return {"engine": "generic", "seed": seed, "prop": "C09",
+                "world": {"layout": "cip", "ip": "10.0.0.1", "project": None, "policy": {}, "identity": {},
+                          "choices": {"handles": "small"}, "objects": [{"where": "entry", "cls": None, "inst": None}]},
+                "net": {"chunk": "whole", "send": "all", "latency": "zero"},
+                "driver": {"cls": "CIPDriver", "path": "10.0.0.1", "log": "off", "seq_advance": 0},
+                "ops": [{"id": "o0", "kind": "open"}] + ops + [{"id": "oz", "kind": "close"}], "faults": []}
+
+    def gop(i, cls, inst, attr, mode):
+        return {"id": f"g{i}", "kind": "generic", "service": 0x0E, "cls": cls, "inst": inst, "attr": attr, "data": "",
+                "mode": mode, "route": True, "data_type": None, "where": "wild",
+                "reply": {"status": 0, "ext": [], "data": "01"}}
+    chunk = 250
+    n = 0
+    for k in range(0, len(vals_i), chunk):
+        ops = [gop(i, 0x300, v, None, "connected" if i % 2 else "unconnected") for i, v in enumerate(vals_i[k:k + chunk])]
+        out.append(scen(ops, 8000 + n))
+        n += 1
+    for k in range(0, len(vals_16), chunk):
+        part = vals_16[k:k + chunk]
+        ops = [gop(i, v, 5, None, "connected") for i, v in enumerate(part) if v not in (0, 1, 2, 6)]
+        ops += [gop(1000 + i, 0x300, 5, v, "unconnected") for i, v in enumerate(part) if v != 0]
+        out.append(scen(ops, 8500 + n))
+        n += 1
+    return out
 
 
 def shrink_candidates(sc):
